@@ -9,7 +9,7 @@ namespace StoneVerif.FeCompile.L
 open StoneVerif.FeCompile
 open StoneVerif.FeParams (TyKind)
 
-theorem wrapNull_fuel {A b t} : wrapNull A b t ≠ .error .outOfFuel := by
+theorem wrapNull_fuel {fu A b t} : wrapNull fu A b t ≠ .error .outOfFuel := by
   unfold wrapNull
   split
   · simp
@@ -30,7 +30,7 @@ theorem wrapNull_fuel {A b t} : wrapNull A b t ≠ .error .outOfFuel := by
       exact hu _ _ he
     all_goals simp
 
-theorem finish_fuel {A w h t} : finish A w h t ≠ .error .outOfFuel := by
+theorem finish_fuel {fu A w h t} : finish fu A w h t ≠ .error .outOfFuel := by
   unfold finish
   split
   · exact wrapNull_fuel
@@ -128,8 +128,8 @@ theorem unionField_fuel {rx E A ns f} : unionField rx E A ns f ≠ .error .outOf
       · rename_i e he; intro hh; cases hh; exact resolveW_fuel _ he
       · split <;> simp
 
-theorem setAttributes_fuel {st key c} : setAttributes st key c ≠ .error .outOfFuel := by
-  have ha : ∀ (done : List (Key × CType)) (f : Nat) (p : Option Key), ancestorNames done f p ≠ .error .outOfFuel := by
+theorem setAttributes_fuel {fu st key c} : setAttributes fu st key c ≠ .error .outOfFuel := by
+  have ha : ∀ (done : Key → Option CType) (f : Nat) (p : Option Key), ancestorNames done f p ≠ .error .outOfFuel := by
     intro done f
     induction f with
     | zero => intro p; cases p <;> simp [ancestorNames]
